@@ -18,6 +18,9 @@ def main():
     t0 = time.time()
     verdict = Verdict(prop)
     os.makedirs(WORK, exist_ok=True)
+    import glob
+    for old in glob.glob(os.path.join(WORK, "replays", prop + "-*.json")):
+        os.remove(old)
 
     # 1. regenerate Gen, build model + driver + this property's proofs, audit axioms
     ok, glog = lean_gen()
